@@ -180,6 +180,20 @@ func (s *IndexedState) Load(ctx *Context) error {
 					return err
 				}
 				expired = append(expired, id)
+				// An expired scheduled rule has to leave the
+				// cron service, too.
+				if s.remHook != nil {
+					if rule, _ := ExtractRule(ctx, x, false); rule != nil {
+						if _, scheduled := rule["schedule"]; scheduled {
+							s.withPrivilege(ctx)
+							err := s.remHook(ctx, s, id)
+							s.withoutPrivilege(ctx)
+							if err != nil {
+								Log(ERROR, ctx, "IndexedState.Load", "location", s.Name, "error", err, "when", "remHook", "id", id)
+							}
+						}
+					}
+				}
 			} else {
 				Log(ERROR, ctx, "IndexedState.Load", "location", s.Name, "error", err, "when", "Store.Add", "pair", pair)
 				return err
@@ -310,6 +324,18 @@ func (s *IndexedState) add(ctx *Context, id string, x Map) (string, error) {
 	// If we are replacing a rule, its 'when' must leave the rule
 	// index, whatever replaces it.
 	var previousRule map[string]interface{}
+	if _, have := s.IdToFact[id]; have && s.remHook != nil {
+		// For the hooks, what we replace is removed (a scheduled
+		// rule that is overwritten must leave the cron service).
+		s.withPrivilege(ctx)
+		err := s.remHook(ctx, s, id)
+		s.withoutPrivilege(ctx)
+		if err != nil {
+			Log(ERROR, ctx, "IndexedState.add", "state", s.Name, "error", err,
+				"id", id, "when", "remHook")
+			return "", err
+		}
+	}
 	if previous, have := s.IdToFact[id]; have {
 		if previousRule, _ = ExtractRule(ctx, previous, false); previousRule != nil {
 			if err = s.unindexRule(ctx, id, previousRule); err != nil {
@@ -496,6 +522,16 @@ func (s *IndexedState) deleteDependencies(ctx *Context, id string) error {
 	for _, sr := range srs.Found {
 		Log(DEBUG, ctx, "IndexedState.deleteDependencies",
 			"location", s.Name, "id", id, "target", sr.Id)
+		if s.remHook != nil {
+			// A dependent is removed like any other fact as far as
+			// the hooks are concerned.
+			s.withPrivilege(ctx)
+			err := s.remHook(ctx, s, sr.Id)
+			s.withoutPrivilege(ctx)
+			if err != nil {
+				return err
+			}
+		}
 		if _, err := s.rem(ctx, sr.Id); nil != err {
 			return err
 		}
@@ -628,6 +664,26 @@ func (s *IndexedState) expire(ctx *Context, id string, fact map[string]interface
 			Log(ERROR, ctx, "IndexedState.expire", "name", s.Name,
 				"when", "Rem", "error", err)
 			return true, err
+		}
+
+		// An expired scheduled rule has to leave the cron
+		// service, too.  (The hook finds the rule gone and
+		// removes what is left of it there.)
+		if s.remHook != nil {
+			if rule, _ := ExtractRule(ctx, fact, false); rule != nil {
+				if _, scheduled := rule["schedule"]; scheduled {
+					wasPrivileged := ctx.isPrivileged("hook")
+					s.withPrivilege(ctx)
+					err := s.remHook(ctx, s, id)
+					if !wasPrivileged {
+						s.withoutPrivilege(ctx)
+					}
+					if err != nil {
+						Log(ERROR, ctx, "IndexedState.expire", "name", s.Name,
+							"when", "remHook", "error", err)
+					}
+				}
+			}
 		}
 	}
 
